@@ -29,20 +29,20 @@ type Opts struct {
 	MaxFields     int
 	NoSharedAddr  bool // stay out of F-SKIPCOPY-INTERIOR-PTR
 	DefectKinds   []string
-	Custom        bool // extend functions and map ... | FUNC
-	Fallible      bool // custom functions may return errors (every declared method then returns error)
-	Contexts      int  // maximal number of context parameters
-	ConvArg       bool // custom functions may take the converter as first argument
-	UseUnderlying bool // may use useUnderlyingTypeMethods
+	Custom        bool   // extend functions and map ... | FUNC
+	Fallible      bool   // custom functions may return errors (every declared method then returns error)
+	Contexts      int    // maximal number of context parameters
+	ConvArg       bool   // custom functions may take the converter as first argument
+	UseUnderlying bool   // may use useUnderlyingTypeMethods
 	TargetsInConv bool   // target types live in the converter package, which is also the output package
 	SourcesInConv bool   // source types live in the converter package, output goes elsewhere
 	Format        string // "" (struct) | function | variable
 	PkgNames      bool   // unusual package names / paths for the type packages
 	LocalNamePkgs bool   // ... including names goverter uses for its own local identifiers
-	PtrHeavy      bool // favour pointer shapes incl. double pointers on either side
-	AlwaysErr     bool // every declared method returns error
-	ErrMismatch   bool // inject one fallible function although no method returns error
-	FallibleRate  int  // percent of custom functions that can fail (default 50)
+	PtrHeavy      bool   // favour pointer shapes incl. double pointers on either side
+	AlwaysErr     bool   // every declared method returns error
+	ErrMismatch   bool   // inject one fallible function although no method returns error
+	FallibleRate  int    // percent of custom functions that can fail (default 50)
 }
 
 // Builder accumulates one program.
@@ -56,12 +56,13 @@ type Builder struct {
 	Conv *model.Conv
 	SC   *spec.Converter
 
-	n        int
-	defects  int
-	stack    []openPair
-	pairs    []namedPair
-	Labels   map[string]int
-	topLevel bool
+	n          int
+	defects    int
+	stack      []openPair
+	curTD      *spec.TypeDecl // target type declaration whose fields are being generated
+	pairs      []namedPair
+	Labels     map[string]int
+	topLevel   bool
 	defectKind string
 
 	Ctx       []CtxParam
@@ -75,18 +76,18 @@ type Builder struct {
 	errMismatchDone bool
 	aImportsMark    bool
 
-	comparableOnly bool // only comparable types (F-ZERO-NONCOMPARABLE)
-	noNillable     bool // no pointer / slice / map members (F-UPDATE-NESTED-STALE)
-	inUpdate       bool
+	comparableOnly      bool // only comparable types (F-ZERO-NONCOMPARABLE)
+	noNillable          bool // no pointer / slice / map members (F-UPDATE-NESTED-STALE)
+	inUpdate            bool
 	NoUnnamedUnexported bool
-	OpenNonComparable bool
-	OpenNestedStale   bool
-	OpenPtrSrcWhole   bool // F-UPDATE-PTRSRC-WHOLE
-	noDot             bool
-	genericDeclared   bool
-	ptrBoost          bool // favour pointer shapes (default methods: nested pointer builds)
-	OpenNilPtrSub     bool // F-UPDATE-NILLABLE-CALL
-	noPtrToNamed      bool
+	OpenNonComparable   bool
+	OpenNestedStale     bool
+	OpenPtrSrcWhole     bool // F-UPDATE-PTRSRC-WHOLE
+	noDot               bool
+	genericDeclared     bool
+	ptrBoost            bool // favour pointer shapes (default methods: nested pointer builds)
+	OpenNilPtrSub       bool // F-UPDATE-NILLABLE-CALL
+	noPtrToNamed        bool
 
 	GlobalOnly []string // setting lines given on the command line instead of the converter
 	// ForceZeroBits: update:ignoreZeroValueField categories every update / default method gets (1 basic, 2 struct, 4 nillable)
@@ -679,7 +680,10 @@ func (b *Builder) namedStruct(depth int) (*spec.T, *spec.T) {
 		own, sm = b.declare(fmt.Sprintf("Conv%d", id), s, t)
 	}
 	b.stack = append(b.stack, openPair{s, t})
+	savedTD := b.curTD
+	b.curTD = td
 	fs, ft := b.fields(depth, own, sd)
+	b.curTD = savedTD
 	b.stack = b.stack[:len(b.stack)-1]
 	sd.U, td.U = spec.Struct(fs...), spec.Struct(ft...)
 	if twin && len(own.Fields) == 0 && len(own.AutoMap) == 0 && own.FieldLines == 0 && len(ft) > 0 {
@@ -1040,6 +1044,11 @@ func (b *Builder) fields(depth int, own *model.Method, sd *spec.TypeDecl) ([]spe
 			b.defects--
 			b.label("defect:unknown-field")
 			tn := fmt.Sprintf("Nope%d", b.id())
+			if b.curTD != nil && b.coin("unknown-is-target-method") {
+				// the name exists on the target type, but as a method: still not a field
+				b.label("defect:unknown-field-is-target-method")
+				b.curTD.Methods = append(b.curTD.Methods, spec.TypeMethod{Name: tn, Ptr: b.coin("target-method-ptr"), Result: spec.Basic("int"), Body: "return 7"})
+			}
 			if b.coin("unknown-how") {
 				own.Fields[tn] = &model.FieldCfg{Ignore: true}
 			} else {
@@ -1384,7 +1393,10 @@ func (b *Builder) structPairFor(m *model.Method, depth int, recur bool) (*spec.T
 		// declared method again (with its default constructor)
 		b.stack = nil
 	}
+	savedTD := b.curTD
+	b.curTD = td
 	fs, ft := b.fields(depth, m, sd)
+	b.curTD = savedTD
 	b.stack = saved
 	sd.U, td.U = spec.Struct(fs...), spec.Struct(ft...)
 	return s, t
